@@ -207,6 +207,11 @@ def _container(r, A, allow_cast=True):
         if zeros.any() and r.random() < 0.5:       # -0.0 in "empty" places
             B[zeros & (r.random(A.shape) < 0.3)] = -0.0
         if v == 0:
+            if r.random() < 0.3:
+                # double precision in the non-native byte order (data read from a
+                # big-endian file): the values are the same numbers
+                return np.ascontiguousarray(B).astype(">c16" if cplx else ">f8"), A, \
+                    "nd-byteswapped"
             return np.ascontiguousarray(B), A, "nd-C"
         if v == 1:
             return np.asfortranarray(B), A, "nd-F"
